@@ -58,11 +58,16 @@ class Module:
                 self.funcs[n.name] = n
             elif isinstance(n, ast.ClassDef):
                 self.classes[n.name] = n
-            elif isinstance(n, ast.ImportFrom) and n.level >= 1 and n.module:
+            elif isinstance(n, ast.ImportFrom) and n.level >= 1:
                 base = os.path.dirname(relpath)
                 for _ in range(n.level - 1):
                     base = os.path.dirname(base)
-                target = os.path.join(base, *n.module.split('.')) + '.py'
+                if n.module:
+                    target = os.path.join(base, *n.module.split('.')) + '.py'
+                    if not os.path.exists(os.path.join(pkg.root, target)):
+                        target = os.path.join(base, *n.module.split('.'), '__init__.py')
+                else:                                        # from . import X : through the package's __init__
+                    target = os.path.join(base, '__init__.py')
                 for a in n.names:
                     self.imports[a.asname or a.name] = (target, a.name)
             elif isinstance(n, (ast.Assign, ast.AnnAssign)) and n.value is not None:
@@ -696,7 +701,25 @@ def extract(repo, relpath, clsname, updates, carried):
                 changed = True
     loops, bad, notes = ex.loops(T)
     missing = [u for u in updates if u not in ex.methods]
-    return {'name': clsname, 'file': relpath, 'methods': ex.table(), 'updates': [u for u in updates if u in ex.methods],
+    table = ex.table()
+    # write-only scratch attributes (bound somewhere outside __init__'s dependences, read by no method of the class, not set by
+    # __init__) cannot couple two calls: they are added to the declared carried state so that e.g. a cached temporary does not alarm
+    def atoms(c, acc):
+        if c[0] in ('Rd', 'Wr'):
+            acc.add((c[0], c[1]))
+        for x in c[1:]:
+            if isinstance(x, tuple):
+                atoms(x, acc)
+        return acc
+    allat = set()
+    for _, c in table:
+        atoms(c, allat)
+    assigned = {a for a, _ in deps}
+    scratch = sorted({x for k, x in allat if k == 'Wr'} - {x for k, x in allat if k == 'Rd'} - assigned - {'*'})
+    if scratch:
+        notes.append('write-only scratch attributes treated as carried: ' + ', '.join(scratch))
+    carried = list(carried) + [x for x in scratch if x not in carried]
+    return {'name': clsname, 'file': relpath, 'methods': table, 'updates': [u for u in updates if u in ex.methods],
             'missing_updates': missing, 'dparams': dparams, 'init': deps, 'carried': list(carried), 'loops': loops,
             'badloops': bad + len(missing), 'notes': notes, 'py_data_attrs': sorted(T)}
 
